@@ -1386,6 +1386,15 @@ func (c *FnCtx) pointHints(key string, ins ssa.Instruction, pos token.Pos, extra
 	if c.spec == nil {
 		return
 	}
+	// "before send:ch assert" applies at every such point, "before send:ch#k assert" only at the k-th (SSA order)
+	site := c.pointSiteIndex(key, ins)
+	for k, h := range c.spec.Hints[fmt.Sprintf("%s#%d", key, site)] {
+		env := c.pointEnv(ins, extra)
+		o := c.oblig(fmt.Sprintf("%s/hint:%s@%d#%d", c.name, key, site, k+1), "hint", c.g.posStr(pos), false)
+		o.Desc = h.Text
+		o.Tags = h.Tags
+		c.assertG(o, c.mustClause(h, env), c.mustGoal(h, env))
+	}
 	for k, h := range c.spec.Hints[key] {
 		env := c.pointEnv(ins, extra)
 		o := c.oblig(fmt.Sprintf("%s/hint:%s#%d", c.name, key, k+1), "hint", c.g.posStr(pos), false)
@@ -1393,4 +1402,40 @@ func (c *FnCtx) pointHints(key string, ins ssa.Instruction, pos token.Pos, extra
 		o.Tags = h.Tags
 		c.assertG(o, c.mustClause(h, env), c.mustGoal(h, env))
 	}
+}
+
+// pointSiteIndex: how many program points with the same key precede ins in SSA (block, instruction) order.
+func (c *FnCtx) pointSiteIndex(key string, ins ssa.Instruction) int {
+	n := 0
+	for _, b := range c.fn.Blocks {
+		for _, x := range b.Instrs {
+			if x == ins {
+				return n
+			}
+			switch y := x.(type) {
+			case *ssa.Send:
+				if "send:"+chanVarName(y.Chan) == key {
+					n++
+				}
+			case *ssa.UnOp:
+				if y.Op == token.ARROW && "recv:"+chanVarName(y.X) == key {
+					n++
+				}
+			case *ssa.Select:
+				for _, st := range y.States {
+					if st.Dir == types.SendOnly && "send:"+chanVarName(st.Chan) == key {
+						n++
+					}
+					if st.Dir == types.RecvOnly && "recv:"+chanVarName(st.Chan) == key {
+						n++
+					}
+				}
+			case *ssa.Go:
+				if "go:"+c.resolveCallee(&y.Call).name == key {
+					n++
+				}
+			}
+		}
+	}
+	return n
 }
